@@ -78,11 +78,17 @@ impl Context {
         }
     }
 
-    pub fn push_error_handler_context(&mut self) {
+    /// Drops the arguments that a failing statement was collecting for a call
+    /// (the statement is abandoned by the error handling).
+    pub fn drop_collecting_arguments(&mut self) {
         // drop all ArgumentState until we hit the first NormalState
         while self.states.last().unwrap().arguments.is_some() {
             self.do_pop();
         }
+    }
+
+    pub fn push_error_handler_context(&mut self) {
+        self.drop_collecting_arguments();
         self.do_push_existing(0, false);
     }
 
